@@ -103,8 +103,11 @@ def scen_sub(rng):
     for j in range(k):
         if j and rng.random() < 0.4:
             child = gen_child(rng, flop=rng.random() < 0.2)
+        strip = rng.random() < 0.82
+        # strip_io=False keeps the child's inputs as `input` nodes (they cannot be driven: only output attachments are accepted)
+        spec = conn_spec(rng, child) if strip or rng.random() < 0.3 else conn_spec(rng, child, 0.0, 0.8)
         ops.append({"op": "sub", "sc": child, "name": f"u{j}" if rng.random() < 0.8 else rng.choice(["s", "top", "u_0", f"core.u{j}", f"a.b{j}"]),
-                    "conns": conn_spec(rng, child), "strip": rng.random() < 0.9})
+                    "conns": spec, "strip": strip})
     if any(o["sc"]["bbs"] for o in ops) and rng.random() < 0.6:
         j = rng.choice([i for i, o in enumerate(ops) if o["sc"]["bbs"]])
         ops.append({"op": "fill", "inst": f"{ops[j]['name']}_ff0", "sc": flop_body(rng)})       # nested blackbox filled afterwards
